@@ -70,7 +70,7 @@ def _anchor(F, top, body, bb):
     return (cb if cur.path == top.path else None), chain
 
 
-def _drawn_from_iterator(body, operand):
+def _drawn_from_iterator(body, operand, F=None, depth=0):
     """does the operand derive from an Iterator::next result (a different element on every iteration)?"""
     seen = set()
     work = [operand]
@@ -88,6 +88,27 @@ def _drawn_from_iterator(body, operand):
                 work.extend(t["args"])
             elif d[0] == "param" and body.kind == "closure" and d[1] >= 2:
                 # parameter of a closure mapped over an iterator: one element per call
+                return True
+            elif d[0] == "param" and body.kind == "closure" and d[1] == 1 and F is not None and depth < 3:
+                # a captured variable of a closure created inside the loop: what the enclosing body computes it from
+                from . import common as _common
+                b2, o2 = _common.upvar_resolve(F, body, o)
+                if b2 is not body and _drawn_from_iterator(b2, o2, F, depth + 1):
+                    return True
+    return False
+
+
+def _descends(body, operand):
+    """is the operand the child of a node that a loop variable walks down to (`level = &level.array`-style descent)?  Then the same
+    field is read at two different depths below one root: one origin's field names are a proper suffix of another's"""
+    seqs = set()
+    for d, p in origins(body, operand):
+        names = tuple(x for x in p if isinstance(x, str) and not x.isdigit() and x != "pointer")
+        if names:
+            seqs.add(names)
+    for a in seqs:
+        for b in seqs:
+            if len(b) > len(a) and b[len(b) - len(a):] == a:
                 return True
     return False
 
@@ -206,7 +227,7 @@ def run(ctx, rule, reviewed, floor_sites, only=None):
                 in_cycle = (s1["bb"] in own_cyc) or (s1["anchor"] is not None and s1["anchor"] in cyc and s1["body"].path != fn.path)
                 if s1["body"].path == fn.path and s1["bb"] in cyc:
                     in_cycle = True
-                if in_cycle and not all(_drawn_from_iterator(s1["body"], o) for o in s1["ops"]):
+                if in_cycle and not all(_drawn_from_iterator(s1["body"], o, F) or _descends(s1["body"], o) for o in s1["ops"]):
                     problems.append(("repeated", s1, None))
                 for s2 in grp[i + 1:]:
                     if s1["anchor"] is None or s2["anchor"] is None:
